@@ -54,6 +54,16 @@ def gen(rng, tier):
                 m['shape'] = 'rpc_res'
                 m['uid'] = 'rpc.%04d' % rng.randint(0, 2)
         msgs.append(m)
+    if not late and len(sides) >= 2 and rng.random() < 0.3:
+        # remote procedure calls across sides: the request is published on one
+        # side, served by the component of another side, whose reply must in
+        # turn reach every other side once
+        for _ in range(rng.randint(1, 2)):
+            a, b = rng.sample(sides, 2)
+            msgs.insert(rng.randint(0, len(msgs)), {
+                'id': len(msgs) + 100, 'side': a, 'kind': 'rpc_call',
+                'server': b, 'fwd': True, 'origin': 'absent',
+                'gap': rng.choice([0.0, 0.0, 0.05])})
     ops = [['msg', m] for m in msgs]
     if rng.random() < 0.3 and len(ops) > 1:
         pos = rng.randint(0, len(ops) - 1)
@@ -113,6 +123,9 @@ def run(seed, scenario, trace=None, tier='quick'):
                 out.append(msg['mid'])
             if isinstance(msg.get('val'), dict) and 'mid' in msg['val']:
                 out.append(msg['val']['mid'])
+            if isinstance(msg.get('kwargs'), dict) and \
+                    'mid' in msg['kwargs']:
+                out.append(msg['kwargs']['mid'])
             for t in ru.as_list(msg.get('arg')) or []:
                 if isinstance(t, dict) and str(t.get('uid', '')).startswith(
                         'task.m'):
@@ -152,6 +165,9 @@ def run(seed, scenario, trace=None, tier='quick'):
                 else rpu.AgentComponent
             with C.group('comp:%s' % name):
                 comp = cls(ccfg, side.session)
+                comp.register_rpc_handler(
+                    'c16_echo', lambda mid=None: {'mid': 1000 + mid},
+                    rpc_addr='comp.%s' % name)
                 comp.start()
             side.comp = comp
             side.raw = dict()
@@ -221,6 +237,23 @@ def run(seed, scenario, trace=None, tier='quick'):
                                            'joined': set(st['joined']),
                                            'since_sync': True,
                                            'flux': st['flux']}
+                    if m['kind'] == 'rpc_call':
+                        from radical.pilot.messages import RPCRequestMessage
+                        sim.probe('rpc_across_sides')
+                        # the reply: a message of the serving side
+                        st['sent'][1000 + m['id']] = {
+                            'm': {'id': 1000 + m['id'], 'side': m['server'],
+                                  'kind': 'raw_control', 'fwd': True,
+                                  'origin': 'absent', 'reply': True},
+                            'joined': set(st['joined']),
+                            'since_sync': True, 'flux': st['flux']}
+                        req = RPCRequestMessage(
+                            uid='rpc.c16.%d' % m['id'], cmd='c16_echo',
+                            addr='comp.%s' % m['server'], args=[],
+                            kwargs={'mid': m['id']})
+                        side.raw[rpc.CONTROL_PUBSUB].put(
+                            rpc.CONTROL_PUBSUB, req)
+                        continue
                     if m['kind'] == 'advance':
                         state = getattr(rps, m.get('state',
                                                    'AGENT_EXECUTING'))
@@ -280,6 +313,8 @@ def run(seed, scenario, trace=None, tier='quick'):
             for mid, rec in sorted(st['sent'].items()):
                 m = rec['m']
                 src = m['side']
+                if m['kind'] == 'rpc_call':
+                    m = dict(m, kind='raw_control')
                 chan = rpc.STATE_PUBSUB if m['kind'] in ('advance',
                                                          'raw_state',
                                                          'comp_state') \
